@@ -266,6 +266,83 @@ func stmtListOf(parent ast.Node) []ast.Stmt {
 // used (the closure may run later); for the repo's Iterate*-callback idiom the
 // closure runs synchronously, so callers normally pass false.
 func (v *FnView) FactsAt(target ast.Node, stopAtFuncLit bool) []Fact {
+	return mirrorFacts(v.expandBoolAliases(v.factsAt(target, stopAtFuncLit)))
+}
+
+// expandBoolAliases: a fact about a boolean local with a single definition (`tooLate := a.GT(b)`;
+// `if tooLate {…}`) also yields the facts of its defining condition, with the same polarity.
+func (v *FnView) expandBoolAliases(facts []Fact) []Fact {
+	n := len(facts)
+	for i := 0; i < n; i++ {
+		id, ok := stripParens(facts[i].Atom).(*ast.Ident)
+		if !ok {
+			continue
+		}
+		o := v.objOf(id)
+		if o == nil {
+			continue
+		}
+		if b, isB := o.Type().Underlying().(*types.Basic); !isB || b.Kind() != types.Bool {
+			continue
+		}
+		defs := v.defsOf(o)
+		if len(defs) != 1 {
+			continue
+		}
+		switch d := stripParens(defs[0]).(type) {
+		case *ast.BinaryExpr, *ast.UnaryExpr:
+			var sub []Fact
+			decompose(d.(ast.Expr), facts[i].Truth, facts[i].At, &sub)
+			facts = append(facts, sub...)
+		case *ast.CallExpr:
+			if _, okc := factCmp(Fact{Atom: d, Truth: true}); okc {
+				facts = append(facts, Fact{Atom: d, Truth: facts[i].Truth, At: facts[i].At})
+			}
+		}
+	}
+	return facts
+}
+
+// mirrorFacts adds, for every comparison fact `a op b`, the equivalent fact `b op' a`, so that a rule written
+// with one orientation in mind also recognises the rewritten comparison (x.LT(y) vs y.GT(x)). Comparisons
+// with nil are left alone (they are call outcomes, recognised in both orientations already).
+func mirrorFacts(facts []Fact) []Fact {
+	n := len(facts)
+	for i := 0; i < n; i++ {
+		// the raw (un-negated) comparison of the atom; the mirrored fact keeps the original polarity
+		c, ok := factCmp(Fact{Atom: facts[i].Atom, Truth: true})
+		if !ok {
+			continue
+		}
+		if id, isID := stripParens(c.L).(*ast.Ident); isID && id.Name == "nil" {
+			continue
+		}
+		if id, isID := stripParens(c.R).(*ast.Ident); isID && id.Name == "nil" {
+			continue
+		}
+		var tok token.Token
+		switch flipOp(c.Op) {
+		case "<":
+			tok = token.LSS
+		case "<=":
+			tok = token.LEQ
+		case ">":
+			tok = token.GTR
+		case ">=":
+			tok = token.GEQ
+		case "==":
+			tok = token.EQL
+		case "!=":
+			tok = token.NEQ
+		default:
+			continue
+		}
+		facts = append(facts, Fact{Atom: &ast.BinaryExpr{X: c.R, Op: tok, Y: c.L, OpPos: facts[i].Atom.Pos()}, Truth: facts[i].Truth, At: facts[i].At})
+	}
+	return facts
+}
+
+func (v *FnView) factsAt(target ast.Node, stopAtFuncLit bool) []Fact {
 	var facts []Fact
 	child := target
 	for n := v.parent(target); n != nil; child, n = n, v.parent(n) {
@@ -314,6 +391,15 @@ func (v *FnView) FactsAt(target ast.Node, stopAtFuncLit bool) []Fact {
 		case *ast.FuncLit:
 			if stopAtFuncLit {
 				return facts
+			}
+		case *ast.BinaryExpr:
+			// short-circuit evaluation: inside the right operand of `a && b`, a holds; of `a || b`, a does not
+			if child == ast.Node(p.Y) {
+				if p.Op == token.LAND {
+					decompose(p.X, true, p, &facts)
+				} else if p.Op == token.LOR {
+					decompose(p.X, false, p, &facts)
+				}
 			}
 		}
 		if list := stmtListOf(n); list != nil {
